@@ -20,12 +20,35 @@ class Tripwire(FilterFunction):
     arg_types = [ExpressionType.VALUE]
     return_type = ExpressionType.LOGICAL
 
+    def __init__(self, variant: bool = False) -> None:
+        # the variant (registered on "foreign" environments only) trips on other values and answers
+        # the opposite: if one environment's function table leaks into another, results change
+        self.variant = variant
+
     def __call__(self, v: Any) -> bool:
+        if self.variant:
+            if (isinstance(v, int) and not isinstance(v, bool) and v == 2) or v == "a":
+                raise JSONPathTypeError("tripwire (variant): unacceptable value")
+            return not (isinstance(v, (str, int, float)) and not isinstance(v, bool))
         if (isinstance(v, int) and not isinstance(v, bool) and v == 1) or v == "abc":
             raise JSONPathTypeError("tripwire: unacceptable value")
         return isinstance(v, (str, int, float)) and not isinstance(v, bool)
 
 
-def register(env: Any) -> Any:
-    env.function_extensions["tripwire"] = Tripwire()
+def register(env: Any, variant: bool = False) -> Any:
+    env.function_extensions["tripwire"] = Tripwire(variant)
+    return env
+
+
+def foreign_environment(filter_caching: bool = True) -> Any:
+    """An environment configured differently from the ones under test: other options, other function table.
+
+    Building and using it must not change what any *other* environment does."""
+    import jsonpath
+    from jsonpath import function_extensions
+
+    env = jsonpath.JSONPathEnvironment(filter_caching=filter_caching, unicode_escape=False)
+    register(env, variant=True)
+    env.function_extensions["typeof"] = function_extensions.TypeOf(single_number_type=False)
+    env.function_extensions["type"] = env.function_extensions["typeof"]
     return env
